@@ -414,3 +414,21 @@ pub fn rand_bytes_pick(rng: &mut impl rand::Rng, lens: &[usize]) -> Vec<u8> {
   let n = *pick(rng, lens);
   rand_bytes(rng, n)
 }
+
+/// does any `w`-byte window of `needle` occur in `hay`? Returns (offset in needle, offset in hay).
+/// Used for uniform secrets: a partial leak (e.g. an unencrypted tail) is still found.
+pub fn find_any_window(hay: &[u8], needle: &[u8], w: usize) -> Option<(usize, usize)> {
+  if needle.len() < w || hay.len() < w {
+    return None;
+  }
+  let mut idx: std::collections::HashMap<&[u8], usize> = std::collections::HashMap::with_capacity(hay.len());
+  for (i, win) in hay.windows(w).enumerate() {
+    idx.entry(win).or_insert(i);
+  }
+  for (j, win) in needle.windows(w).enumerate() {
+    if let Some(i) = idx.get(win) {
+      return Some((j, *i));
+    }
+  }
+  None
+}
